@@ -125,6 +125,9 @@ let parse_op (o : string) (impl_step : string) : zop =
   | "reduce" ->
     let code = (match f.(1) with "sum" -> 0 | "min" -> 1 | "max" -> 2 | o -> failwith o) in
     ZReduce (z_of_int code, nat 2, zs f.(3), (String.length impl_step >= 3 && String.sub impl_step 0 3 = "err"))
+  | "reducefn" ->
+    let code = (match f.(1) with "sum" -> 0 | "min" -> 1 | "max" -> 2 | o -> failwith o) in
+    ZReduceFn (z_of_int code, nat 2, zi 3, (String.length impl_step >= 3 && String.sub impl_step 0 3 = "err"))
   | "lin" ->
     let code = (match f.(1) with "matmul" -> 0 | "matvec" -> 1 | "outer" -> 2 | o -> failwith o) in
     let m = (match String.split_on_char '.' f.(4) with
@@ -261,7 +264,7 @@ let operand_ids (o : string) : int list =
   | "bin" | "cmp" -> [int_of_string f.(2); int_of_string f.(3)]
   | "fma" -> [int_of_string f.(1); int_of_string f.(2); int_of_string f.(3)]
   | "fmas" -> [int_of_string f.(1); int_of_string f.(3)]
-  | "bins" | "cmps" | "un" | "apply" | "reduce" | "arg" -> [int_of_string f.(2)]
+  | "bins" | "cmps" | "un" | "apply" | "reduce" | "reducefn" | "arg" -> [int_of_string f.(2)]
   | "stack" | "concat" -> int_of_string f.(1) :: ints f.(3)
   | "repeat" | "trace" -> [int_of_string f.(1)]
   | "lin" -> [int_of_string f.(2); int_of_string f.(3)]
@@ -339,7 +342,7 @@ let run_prog_gen (kept : bool) dt (prog : string) (impl : string) : outcome =
                   | Some g -> g f | None -> operand_ids o in
                 let gn = gname (zguard before op) in
                 let gn = if gn = "other" then "L" ^ String.concat "," (List.map (layout_tag before) ids) else gn in
-                cls := f.(0) ^ (if Array.length f > 1 && (f.(0) = "bin" || f.(0) = "bins" || f.(0) = "cmp" || f.(0) = "cmps" || f.(0) = "un" || f.(0) = "apply" || f.(0) = "reduce" || f.(0) = "arg" || f.(0) = "lin") then "." ^ List.hd (String.split_on_char '.' f.(1)) else "") ^ ":" ^ gn
+                cls := f.(0) ^ (if Array.length f > 1 && (f.(0) = "bin" || f.(0) = "bins" || f.(0) = "cmp" || f.(0) = "cmps" || f.(0) = "un" || f.(0) = "apply" || f.(0) = "reduce" || f.(0) = "reducefn" || f.(0) = "arg" || f.(0) = "lin") then "." ^ List.hd (String.split_on_char '.' f.(1)) else "") ^ ":" ^ gn
                        ^ ":" ^ symptom (strip_model_only mstr) sstr;
                 (* after a divergence the two states are no longer related *)
                 s := None
